@@ -1,16 +1,20 @@
 import IpcModel.Ledger.LP
 import IpcModel.Ideal
+import IpcModel.Lemmas.RefineRun
 /-!
 # C03 — disconnection is reported exactly when no sender can exist any more
 
-Two layers.  (1) `Ledger`: the open descriptors of a process are exactly those owned by live handles (`roots_coincide`) —
+Three layers.  (1) `Ledger`: the open descriptors of a process are exactly those owned by live handles (`roots_coincide`) —
 so the kernel's notion "the peer is still referenced" (reachability from descriptor tables through queued packets) and
 the specification's notion "a sender handle exists" (reachability from program-held handles through queued messages) start
 from the same roots and run over the same queues.  (2) `Ideal`: the specification itself, whose receive result is
 `disconnected` iff the queue is empty and no sender handle exists.
 
-**Not proved as one theorem** (`C03_refine`, partial): the simulation between the unix transport and `Ideal` over whole
-histories; it is checked on every run by executing seeded histories on the real crate (three builds) against `Ideal.run`.
+(3) `Unix ⊑ Ideal` (`C03_refine`, proved in `Lemmas/Refine*.lean`): the descriptor-level reading of a program — handles are
+descriptors, dropping closes one descriptor, the kernel decides by reachability which sockets exist, nothing is destroyed
+in user space — gives the same result for every operation of every valid program as the specification with its explicit
+destruction cascade; in particular `disconnected` / `empty` / the delivered messages coincide.  The step from the real
+crate to `Unix` is the correspondence check: the OS builds are run on seeded programs and compared with `Unix.run`.
 -/
 namespace C03
 
@@ -18,6 +22,20 @@ namespace C03
 theorem C03_roots (ops : List Ledger.Op) (st : Ledger.St) (h : Ledger.run Ledger.init ops = some st) (fd : Nat) :
     Ledger.isOpen st fd ↔ Ledger.Owned st fd :=
   Ledger.roots_coincide ops st h fd
+
+/-- **C03_refine** — for every valid program (it embeds only receivers it holds, each once) the descriptor-level reading and
+the specification answer every operation alike: messages, `empty`, `disconnected`, send failures. -/
+theorem C03_refine (ops : List Ideal.Op) (hv : Unix.valid ops = true) : (Unix.run ops).2 = (Ideal.run ops).2 :=
+  Refine.refine_run ops hv
+
+/-- descriptor level, stated directly: a receive on a held receiver reports `disconnected` exactly when nothing is queued and
+the sending socket exists nowhere — no descriptor for it is open and none is in flight towards a socket that exists. -/
+theorem C03_unix_iff (u : Unix.St) (c : Nat) (ch : Unix.Chan) (hc : u.chans[c]? = some ch) (hh : ch.held = true) :
+    ((Unix.step u (.recv c)).2 = .disconnected ↔ ch.queue = [] ∧ Unix.senderOpen u c = false) := by
+  simp only [Unix.step, hc, hh]
+  cases hq : ch.queue with
+  | nil => by_cases hs : Unix.senderOpen u c = true <;> simp [hs]
+  | cons m q => simp
 
 open Ideal
 
